@@ -367,20 +367,27 @@ func VerifKnownPathRegexps() (ret [][2]string) {
 			verifMark("VerifKnownPathRegexps: a regexp rule is not a struct")
 			return
 		}
+		// the shape is decided by the TYPES of the fields (exactly one *regexp.Regexp, exactly one string); what the
+		// fields hold is state: a rule whose pattern is nil is listed as such
 		var expr *regexp.Regexp
-		repl, nstr := "", 0
+		repl, nstr, nre := "", 0, 0
 		for j := 0; j < el.NumField(); j++ {
-			switch v := verifFieldValue(el.Field(j)).(type) {
-			case *regexp.Regexp:
-				expr = v
-			case string:
-				repl = v
+			switch el.Field(j).Type() {
+			case reflect.TypeOf((*regexp.Regexp)(nil)):
+				nre++
+				expr, _ = verifFieldValue(el.Field(j)).(*regexp.Regexp)
+			case reflect.TypeOf(""):
 				nstr++
+				repl, _ = verifFieldValue(el.Field(j)).(string)
 			}
 		}
-		if expr == nil || nstr != 1 {
-			verifMark("VerifKnownPathRegexps: a regexp rule without a compiled pattern or without exactly one string")
+		if nre != 1 || nstr != 1 {
+			verifMark("VerifKnownPathRegexps: a regexp rule is not a (pattern, replacement) pair of the known shape")
 			return
+		}
+		if expr == nil {
+			ret = append(ret, [2]string{"<nil pattern>", repl})
+			continue
 		}
 		ret = append(ret, [2]string{expr.String(), repl})
 	}
